@@ -29,6 +29,8 @@ def run(chk):
     vsib_only_rule(chk)
     validation_data_rule(chk)
     implicit_reg_rule(chk)
+    from lib import ersae
+    ersae.run(chk)
     return chk.finish(
         level="other",
         explanation=("(a) the generated signature/name/RW tables regenerate byte-identically from db/; (b) for every instruction id of both "
